@@ -549,6 +549,7 @@ pub fn gen_c12(seed: u64, thorough: bool) {
     let src = Sources::new();
     let n = if thorough { 600 } else { 40 };
     let bundled_voice = jbonsai::model::load_htsvoice_file(&BUNDLED_VOICE).unwrap();
+    let gv_off_patterns = crate::util::gv_off_patterns_of_file(&BUNDLED_VOICE);
     // (a) stage-level model correspondence with GV on small streams
     for _ in 0..(if thorough { 2000 } else { 120 }) {
         let msd = rng.chance(0.5);
@@ -582,7 +583,19 @@ pub fn gen_c12(seed: u64, thorough: bool) {
         let ms = models.model_stream(stream);
         let (gvp, gvsw) = ms.gv.clone().expect("bundled GV streams");
         let durs = impl_durations(&e0, &lines);
+        // eligibility is decided from the voice file's GV_OFF_CONTEXT patterns and the label text,
+        // not from the switch the library computed (which the driver checks against the patterns)
+        let nstate = e0.voices.global_metadata().num_states;
+        let lab_text: Vec<String> = labs.labels().iter().map(|l| l.to_string()).collect();
+        let indep_sw: Vec<bool> = lab_text.iter().flat_map(|l| vec![!gv_off_patterns.iter().any(|p| crate::util::glob(p.as_bytes(), l.as_bytes())); nstate]).collect();
         let mut line = format!("gvv {} {}", kind, stream);
+        push_u(&mut line, gv_off_patterns.len());
+        for p in &gv_off_patterns { push_s(&mut line, &esc(p)); }
+        push_u(&mut line, nstate);
+        push_u(&mut line, lab_text.len());
+        for l in &lab_text { push_s(&mut line, &esc(l)); }
+        push_u(&mut line, gvsw.len());
+        for b in &gvsw { push_u(&mut line, *b as usize); }
         push_fs(&mut line, &ws);
         push_u(&mut line, gvp.len());
         for MeanVari(m, _) in &gvp { push_f(&mut line, *m); }
@@ -599,7 +612,7 @@ pub fn gen_c12(seed: u64, thorough: bool) {
             let mut f = 0usize;
             for (k, d) in durs.iter().enumerate() {
                 for _ in 0..*d {
-                    if gvsw[k] && tr[f][0] != -1e10 { elig.push(f); }
+                    if indep_sw.get(k).copied().unwrap_or(false) && tr[f][0] != -1e10 { elig.push(f); }
                     f += 1;
                 }
             }
